@@ -147,8 +147,17 @@ func stOf(t *Task) Status {
 //@   assigns nothing
 //@   ensures result == blockedBy(recv, arg0, arg1)
 
+// a task that is linked into a change, by id
+//@ define isLinked(s *State, id string) = s.tasks[id] != nil && s.tasks[id].state.changes[s.tasks[id].change] != nil
+
+//@ func (*State).Task
+//@   props C07
+//@   assigns nothing
+//@   ensures (isLinked(s, id) ==> result == s.tasks[id]) && (!isLinked(s, id) ==> result == nil)
+
 //@ func (*TaskRunner).Ensure
 //@   props C02 C07 C03 C04
+//@   loop 0: step [every-started-task-counts-as-running] !isLinked(r.state, tid) || (len(running) == old(len(running)) + 1 && running[len(running) - 1] == r.state.tasks[tid])
 //@   guard call run: [not-finished] !stOf(arg1).Ready()
 //@   guard call run: [runnable] stOf(arg1) != WaitStatus && stOf(arg1) != AbortStatus
 //@   guard call run: !mustWaitSpec(arg1)
